@@ -876,3 +876,136 @@ Example restore_learners_joint_somewhere :
   | inr _ => false
   end = true.
 Proof. vm_compute. reflexivity. Qed.
+
+(* ---- only members have a progress record (the "non-members none" clause of C13, which
+   checkInvariants itself does not test) ---- *)
+
+(* only members have a progress record *)
+Definition pinv (c : config) (p : progress_map) : Prop :=
+  forall id, amem p id = true ->
+    In id (c_voters c) \/ In id (c_outgoing c) \/ In id (c_learners c) \/ In id (c_learners_next c).
+
+Lemma amem_ainsert {A} (m : list (N * A)) k v k' : amem (ainsert m k v) k' = (N.eqb k' k || amem m k').
+Proof. unfold amem. rewrite alookup_ainsert. destruct (N.eqb k' k); reflexivity. Qed.
+
+Lemma amem_aremove {A} (m : list (N * A)) k k' : amem (aremove m k) k' = (negb (N.eqb k' k) && amem m k').
+Proof. unfold amem. rewrite alookup_aremove. destruct (N.eqb k' k); reflexivity. Qed.
+
+Tactic Notation "pinv_case" ident(i) constr(id) :=
+  rewrite ?amem_ainsert, ?amem_aremove in *;
+  destruct (N.eqb_spec i id) as [?|?]; [subst i|]; cbn [orb andb negb] in *;
+  rewrite ?sinsert_In, ?sremove_In.
+
+Lemma make_voter_pinv mi mb li c p id c' p' :
+  pinv c p -> make_voter mi mb li c p id = (c', p') -> pinv c' p'.
+Proof.
+  intros PI H. unfold make_voter, init_progress in H.
+  destruct (alookup p id); inversion H; subst; clear H; unfold pinv; intros i AM; cbn; pinv_case i id; try tauto;
+    apply PI in AM; tauto.
+Qed.
+
+Lemma cc_remove_pinv c p id c' p' :
+  pinv c p -> cc_remove c p id = (c', p') -> pinv c' p'.
+Proof.
+  intros PI H. unfold cc_remove in H.
+  destruct (negb _); [inversion H; subst; exact PI|].
+  destruct (smem (c_outgoing c) id) eqn:SM; inversion H; subst; clear H; unfold pinv; intros i AM; cbn; pinv_case i id;
+    try discriminate; try (apply smem_In in SM; tauto); apply PI in AM; tauto.
+Qed.
+
+Lemma make_learner_pinv mi mb li c p id c' p' :
+  pinv c p -> make_learner mi mb li c p id = (c', p') -> pinv c' p'.
+Proof.
+  intros PI H. unfold make_learner, init_progress in H.
+  destruct (alookup p id) as [pr|] eqn:E.
+  2:{ inversion H; subst; clear H; unfold pinv; intros i AM; cbn; pinv_case i id; try tauto; apply PI in AM; tauto. }
+  destruct (pr_is_learner pr); [inversion H; subst; exact PI|].
+  unfold cc_remove in H. assert (HP : has_progress p id = true) by (unfold has_progress, amem; rewrite E; reflexivity).
+  rewrite HP in H. cbn [negb] in H.
+  destruct (smem (c_outgoing c) id) eqn:SM; cbn in H; rewrite SM in H; inversion H; subst; clear H;
+    unfold pinv; intros i AM; cbn; pinv_case i id; try tauto; apply PI in AM; tauto.
+Qed.
+
+Lemma cc_apply_pinv mi mb li : forall ccs c p c' p',
+  pinv c p -> cc_apply mi mb li c p ccs = inl (c', p') -> pinv c' p'.
+Proof.
+  induction ccs as [|cc ccs IH]; intros c p c' p' PI H; cbn [cc_apply] in H.
+  - destruct (N.eqb _ 0); [discriminate|]. inversion H; subst. exact PI.
+  - destruct (N.eqb (ccs_node cc) 0); [eapply IH; eauto|].
+    destruct (ccs_type cc); try discriminate.
+    + destruct (make_voter _ _ _ _ _ _) as [c1 p1] eqn:R. eapply IH; [|exact H]. eapply make_voter_pinv; eauto.
+    + destruct (cc_remove _ _ _) as [c1 p1] eqn:R. eapply IH; [|exact H]. eapply cc_remove_pinv; eauto.
+    + eapply IH; eauto.
+    + destruct (make_learner _ _ _ _ _ _) as [c1 p1] eqn:R. eapply IH; [|exact H]. eapply make_learner_pinv; eauto.
+Qed.
+
+Theorem changer_simple_pinv t li ccs c p :
+  pinv (t_config t) (t_progress t) -> changer_simple t li ccs = inl (c, p) -> pinv c p.
+Proof.
+  unfold changer_simple. intros PI H.
+  destruct (check_and_return (cfg_clone (t_config t)) (t_progress t)) as [[c0 p0]|] eqn:E0; [|discriminate].
+  apply check_and_return_ok in E0. destruct E0 as (-> & -> & I0).
+  destruct (joint _); [discriminate|].
+  destruct (cc_apply _ _ _ _ _ _) as [[c2 p2]|] eqn:EA; [|discriminate].
+  destruct (1 <? symdiff _ _); [discriminate|].
+  apply check_and_return_ok in H. destruct H as (-> & -> & _).
+  eapply cc_apply_pinv; [|exact EA]. exact PI.
+Qed.
+
+Theorem changer_enter_joint_pinv t li al ccs c p :
+  pinv (t_config t) (t_progress t) -> changer_enter_joint t li al ccs = inl (c, p) -> pinv c p.
+Proof.
+  unfold changer_enter_joint. intros PI H.
+  destruct (check_and_return (cfg_clone (t_config t)) (t_progress t)) as [[c0 p0]|] eqn:E0; [|discriminate].
+  apply check_and_return_ok in E0. destruct E0 as (-> & -> & I0).
+  destruct (joint _) eqn:J; [discriminate|].
+  destruct (N.eqb (nlen _) 0); [discriminate|].
+  destruct (cc_apply _ _ _ _ _ _) as [[c2 p2]|] eqn:EA; [|discriminate].
+  apply check_and_return_ok in H. destruct H as (-> & -> & _).
+  apply cc_apply_pinv in EA.
+  - intros i AM. apply EA in AM. cbn. exact AM.
+  - intros i AM. apply PI in AM. cbn. unfold joint in J. cbn in J. apply negb_false_iff, nlen_zero in J.
+    rewrite J in AM. cbn in AM. tauto.
+Qed.
+
+Lemma fold_mark_amem (f : progress -> progress) : forall l (p : progress_map) i,
+  amem (fold_left (fun p id => match alookup p id with Some pr => ainsert p id (f pr) | None => p end) l p) i = amem p i.
+Proof.
+  induction l as [|id l IH]; intros p i; cbn [fold_left]; [reflexivity|]. rewrite IH.
+  destruct (alookup p id) as [pr|] eqn:E; [|reflexivity]. rewrite amem_ainsert.
+  destruct (N.eqb_spec i id) as [->|]; [|reflexivity]. unfold amem. rewrite E. reflexivity.
+Qed.
+
+Lemma fold_drop_amem (cond : N -> bool) : forall l (p : progress_map) i,
+  amem (fold_left (fun p id => if cond id then aremove p id else p) l p) i = true ->
+  amem p i = true /\ (In i l -> cond i = false).
+Proof.
+  induction l as [|id l IH]; intros p i H; cbn [fold_left] in H; [split; [exact H|intros []]|].
+  apply IH in H. destruct H as [H1 H2]. destruct (cond id) eqn:CD.
+  - rewrite amem_aremove in H1. apply andb_true_iff in H1. destruct H1 as [NE AM]. split; [exact AM|].
+    intros [->|I]; [rewrite N.eqb_refl in NE; discriminate|auto].
+  - split; [exact H1|]. intros [->|I]; auto.
+Qed.
+
+Theorem changer_leave_joint_pinv t c p :
+  pinv (t_config t) (t_progress t) -> changer_leave_joint t = inl (c, p) -> pinv c p.
+Proof.
+  unfold changer_leave_joint. intros PI H.
+  destruct (check_and_return (cfg_clone (t_config t)) (t_progress t)) as [[c0 p0]|] eqn:E0; [|discriminate].
+  apply check_and_return_ok in E0. destruct E0 as (-> & -> & I0).
+  destruct (negb (joint _)); [discriminate|].
+  apply check_and_return_ok in H. destruct H as (-> & -> & _).
+  unfold pinv. intros i AM. cbn in *.
+  apply fold_drop_amem in AM. destruct AM as [AM CD].
+  rewrite (fold_mark_amem (fun pr => pr_with_is_learner pr true)) in AM.
+  apply PI in AM. rewrite fold_sinsert_In.
+  destruct AM as [V|[O|[L|LN]]]; [tauto| |tauto|tauto].
+  specialize (CD O). apply andb_false_iff in CD. destruct CD as [CD|CD]; apply negb_false_iff, smem_In in CD.
+  - tauto.
+  - apply fold_sinsert_In in CD. tauto.
+Qed.
+
+(* non-vacuity and strength: the empty tracker satisfies pinv, so every configuration reached
+   from it by accepted changes does *)
+Lemma pinv_fresh mi mb : pinv (t_config (make_tracker mi mb)) (t_progress (make_tracker mi mb)).
+Proof. unfold pinv. cbn. intros id H. discriminate. Qed.
